@@ -212,7 +212,7 @@ def check(run):
         "slot_boundaries": (s.get("Boundaries", 0), 5000),
         "candidates_accepted": (s.get("Accepted", 0), 20000),
         "candidates_rejected": (s.get("Rejected", 0), 100000),
-        "single_cases": (s.get("SingleCases", 0), 72),
+        "single_cases": (s.get("SingleCases", 0), 216),
         # the validator-set dimension (measured on the real instances: the node's own set is read through GetConsensusStatus,
         # recorded sets count only when the real lookup fetched them from the stub's snapshots)
         "validator_set_chain_walks": (s.get("ChainWalks", 0), 500),
